@@ -9,6 +9,10 @@
 (*  - `best`  = BestIndividual  (src/state/common.rs)                      *)
 (*  - `arch`  = ElitistArchive  (src/components/archive.rs), capacity K    *)
 (*  - `evals` = Evaluations counter, `calls` = objective invocations       *)
+(*  - `reg` = which evaluator is registered under the identifiers Global   *)
+(*    and A in the state's own scope: <<g, a>>, 0 = none, 1 = an evaluator *)
+(*    calling the objective function once per individual, 2 = the user's   *)
+(*    probing evaluator (twice, probes counted)                            *)
 (* act = [op, i, s];  res = [k, v].                                        *)
 (***************************************************************************)
 EXTENDS Naturals, Sequences, FiniteSets
@@ -16,14 +20,15 @@ EXTENDS Naturals, Sequences, FiniteSets
 CONSTANTS Sols,      \* solution tags (positive integers)
           F,         \* objective rank of every solution: [Sols -> 1..INF]
           K,         \* archive capacity
-          MaxPop
+          MaxPop,
+          RegKinds   \* evaluator kinds offered to `register` / `evaluate_scoped` ({}: the registrations are not modelled)
 
 NoObj == 0
 INF == 1000000
 NoInd == [s |-> 0, o |-> NoObj]
 
-VARIABLES pop, best, arch, shownK, evals, calls, act, res
-mvars == <<pop, best, arch, shownK, evals, calls, act, res>>
+VARIABLES pop, best, arch, shownK, evals, calls, reg, act, res
+mvars == <<pop, best, arch, shownK, evals, calls, reg, act, res>>
 
 A(op, i, s) == [op |-> op, i |-> i, s |-> s]
 R(k, v) == [k |-> k, v |-> v]
@@ -39,6 +44,18 @@ Ranks(q) == [j \in 1..Len(q) |-> q[j].o]
 FirstK(q, k) == SubSeq(q, 1, IF Len(q) < k THEN Len(q) ELSE k)
 Min2(a, b) == IF a < b THEN a ELSE b
 
+(* Evaluator kinds: 0 sequential, 1..3 parallel (on that many worker threads; 1 also: on the default pool), 4 the   *)
+(* user's probing evaluator.  What distinguishes them for an observer is how often the objective function is called. *)
+Track == RegKinds # {}
+Mult(kind) == IF kind = 4 THEN 2 ELSE 1
+\* `register` through insert_evaluator (a.i = 1), insert_evaluator_as::<Global> (2), insert_evaluator_as::<A> (3)
+SlotOf(api) == IF api = 3 THEN 2 ELSE 1
+\* what the state_init of the scope of `evaluate_scoped` registers (a.s): 9 nothing, k the kind k under the identifier
+\* the body asks for, 10 + k the kind k under the OTHER identifier
+ScopeRegs == {9} \cup RegKinds \cup {10 + k : k \in RegKinds}
+\* the evaluator an evaluation step for identifier slot `id` finds inside that scope: the innermost registration
+Effective(id, sreg) == IF sreg \in RegKinds THEN Mult(sreg) ELSE reg[id]
+
 AllEvaluated == \A j \in Idx : pop[j].o # NoObj
 RECURSIVE ArgMin(_, _, _)
 ArgMin(q, j, m) == IF j > Len(q) THEN m      \* first minimum wins
@@ -53,56 +70,76 @@ Do(a) ==
   /\ act' = a
   /\ CASE a.op = "new" ->            \* Individual::new(sol, f(sol))
             /\ pop' = Append(pop, Ind(a.s, F[a.s])) /\ res' = R("ok", 0)
-            /\ UNCHANGED <<best, arch, shownK, evals, calls>>
+            /\ UNCHANGED <<best, arch, shownK, evals, calls, reg>>
        [] a.op = "new_unevaluated" ->
             /\ pop' = Append(pop, Ind(a.s, NoObj)) /\ res' = R("ok", 0)
-            /\ UNCHANGED <<best, arch, shownK, evals, calls>>
+            /\ UNCHANGED <<best, arch, shownK, evals, calls, reg>>
        [] a.op = "clone" ->          \* copies keep solution and objective together
             /\ pop' = Append(pop, pop[a.i]) /\ res' = R("ok", 0)
-            /\ UNCHANGED <<best, arch, shownK, evals, calls>>
+            /\ UNCHANGED <<best, arch, shownK, evals, calls, reg>>
        [] a.op = "clone_from" ->     \* pop[i].clone_from(&pop[s]): the target becomes an exact copy
             /\ pop' = [pop EXCEPT ![a.i] = pop[a.s]] /\ res' = R("ok", 0)
-            /\ UNCHANGED <<best, arch, shownK, evals, calls>>
+            /\ UNCHANGED <<best, arch, shownK, evals, calls, reg>>
        [] a.op = "remove" ->
             /\ pop' = SubSeq(pop, 1, a.i - 1) \o SubSeq(pop, a.i + 1, Len(pop)) /\ res' = R("ok", 0)
-            /\ UNCHANGED <<best, arch, shownK, evals, calls>>
+            /\ UNCHANGED <<best, arch, shownK, evals, calls, reg>>
        [] a.op = "solution_mut" ->   \* *ind.solution_mut() = s: mutable access leaves it unevaluated
             /\ pop' = [pop EXCEPT ![a.i] = Ind(a.s, NoObj)] /\ res' = R("ok", 0)
-            /\ UNCHANGED <<best, arch, shownK, evals, calls>>
+            /\ UNCHANGED <<best, arch, shownK, evals, calls, reg>>
        [] a.op = "solution_mut_peek" ->   \* mutable access without writing also invalidates
             /\ pop' = [pop EXCEPT ![a.i].o = NoObj] /\ res' = R("ok", 0)
-            /\ UNCHANGED <<best, arch, shownK, evals, calls>>
+            /\ UNCHANGED <<best, arch, shownK, evals, calls, reg>>
        [] a.op = "as_solutions_mut" -> \* hands out &mut to every solution; writes s into member i
             /\ pop' = [j \in Idx |-> IF j = a.i THEN Ind(a.s, NoObj) ELSE Ind(pop[j].s, NoObj)]
             /\ res' = R("ok", 0)
-            /\ UNCHANGED <<best, arch, shownK, evals, calls>>
+            /\ UNCHANGED <<best, arch, shownK, evals, calls, reg>>
        [] a.op = "as_solutions" ->   \* read-only view: reply = number of solutions, nothing changes
-            /\ res' = R("ok", Len(pop)) /\ UNCHANGED <<pop, best, arch, shownK, evals, calls>>
+            /\ res' = R("ok", Len(pop)) /\ UNCHANGED <<pop, best, arch, shownK, evals, calls, reg>>
        [] a.op = "round_trip" ->     \* into_solutions().into_individuals(): same solutions, all unevaluated
             /\ pop' = [j \in Idx |-> Ind(pop[j].s, NoObj)] /\ res' = R("ok", 0)
-            /\ UNCHANGED <<best, arch, shownK, evals, calls>>
+            /\ UNCHANGED <<best, arch, shownK, evals, calls, reg>>
        [] a.op = "evaluate_with" ->  \* ind.evaluate_with(f)
             /\ pop' = [pop EXCEPT ![a.i].o = F[pop[a.i].s]] /\ res' = R("ok", 0)
             /\ calls' = calls + 1
-            /\ UNCHANGED <<best, arch, shownK, evals>>
+            /\ UNCHANGED <<best, arch, shownK, evals, reg>>
        [] a.op = "set_objective" ->  \* ind.set_objective(f(sol)): reply = was evaluated before
             /\ pop' = [pop EXCEPT ![a.i].o = F[pop[a.i].s]]
             /\ res' = R("ok", IF pop[a.i].o # NoObj THEN 1 ELSE 0)
-            /\ UNCHANGED <<best, arch, shownK, evals, calls>>
+            /\ UNCHANGED <<best, arch, shownK, evals, calls, reg>>
        [] a.op = "evaluate" ->       \* PopulationEvaluator on the current population (a.s = 1: parallel evaluator)
             /\ pop' = [j \in Idx |-> Ind(pop[j].s, F[pop[j].s])]
             \* (a.s = 4: the user's evaluator calls the objective function twice per individual and adds its own probes
             \*  to the counter; the step adds the individuals it evaluated: reported = invoked either way)
             /\ LET m == IF a.s = 4 THEN 2 * Len(pop) ELSE Len(pop) IN evals' = evals + m /\ calls' = calls + m
             /\ res' = R("ok", 0)
+            /\ reg' = IF Track THEN <<Mult(a.s), reg[2]>> ELSE reg      \* (the driver registers kind a.s under Global first)
             /\ UNCHANGED <<best, arch, shownK>>
+       [] a.op = "register" ->       \* the evaluator registered last under an identifier is the registered one
+            /\ reg' = [reg EXCEPT ![SlotOf(a.i)] = Mult(a.s)] /\ res' = R("ok", 0)
+            /\ UNCHANGED <<pop, best, arch, shownK, evals, calls>>
+       [] a.op = "evaluate_id" ->    \* PopulationEvaluator for identifier slot a.i, with whatever is registered there
+            /\ pop' = [j \in Idx |-> Ind(pop[j].s, F[pop[j].s])]
+            /\ LET m == reg[a.i] * Len(pop) IN evals' = evals + m /\ calls' = calls + m
+            /\ res' = R("ok", 0)
+            /\ UNCHANGED <<best, arch, shownK, reg>>
+       [] a.op = "evaluate_scoped" -> \* Scope::new_with(state_init registering a.s, body = { leaf; evaluate_with::<a.i> }):
+                                      \* the evaluator of the innermost registration is applied (res.v = the counter the
+                                      \* body sees after the step: the scope's own); if there is none the scope fails before
+                                      \* anything in it executes (res.v = leaves executed).  The scope's counter and
+                                      \* registration end with it.
+            /\ LET e == Effective(a.i, a.s) IN
+               IF e = 0 THEN res' = R("err", 0) /\ UNCHANGED <<pop, calls>>
+               ELSE /\ pop' = [j \in Idx |-> Ind(pop[j].s, F[pop[j].s])]
+                    /\ calls' = calls + e * Len(pop)
+                    /\ res' = R("ok", e * Len(pop))
+            /\ UNCHANGED <<best, arch, shownK, evals, reg>>
        [] a.op = "evaluate_missing" -> \* configuration asking for an evaluator id that is not registered, placed
                                        \* (a.s) at top level / in a loop body / if body / else body taken / else body
                                        \* not taken: fails in `require`; res.v = number of components that executed
-            /\ res' = R("err", 0) /\ UNCHANGED <<pop, best, arch, shownK, evals, calls>>
+            /\ res' = R("err", 0) /\ UNCHANGED <<pop, best, arch, shownK, evals, calls, reg>>
        [] a.op = "evaluate_nested" ->  \* scope^(a.s) { evaluate }; evaluate  on a copy of the population: the run
                                        \* succeeds and makes exactly 2 |pop| objective calls (res.v)
-            /\ res' = R("ok", 2 * Len(pop)) /\ UNCHANGED <<pop, best, arch, shownK, evals, calls>>
+            /\ res' = R("ok", 2 * Len(pop)) /\ UNCHANGED <<pop, best, arch, shownK, evals, calls, reg>>
        [] a.op = "update_best" ->    \* BestIndividualUpdate: only a strictly better candidate replaces; which of
                                      \* several equally good minima is recorded is not fixed by the statement
             /\ IF Len(pop) = 0 THEN best' = best
@@ -111,13 +148,13 @@ Do(a) ==
                     THEN best' \in {pop[j] : j \in {x \in Idx : pop[x].o = m}}
                     ELSE best' = best
             /\ res' = R("ok", 0)
-            /\ UNCHANGED <<pop, arch, shownK, evals, calls>>
+            /\ UNCHANGED <<pop, arch, shownK, evals, calls, reg>>
        [] a.op = "init_run" ->       \* the init phase of a (further) run on this state: counter and memories start empty
             /\ best' = NoInd /\ arch' = <<>> /\ shownK' = <<>> /\ evals' = 0 /\ res' = R("ok", 0)
-            /\ UNCHANGED <<pop, calls>>
+            /\ UNCHANGED <<pop, calls, reg>>
        [] a.op = "archive_into_population" ->
             /\ pop' = Reinsert(pop, arch, 1) /\ res' = R("ok", 0)
-            /\ UNCHANGED <<best, arch, shownK, evals, calls>>
+            /\ UNCHANGED <<best, arch, shownK, evals, calls, reg>>
 
 (* ElitistArchiveUpdate(K): afterwards the archive holds K best of archive + population; ties may   *)
 (* be broken either way (unstable sort), so the new archive is any sequence allowed by the relation *)
@@ -134,7 +171,44 @@ ArchiveUpdate(na) ==
     /\ arch' = na
     /\ shownK' = FirstK(SortSeq(shownK \o Ranks(pop)), K)
     /\ res' = R("ok", 0)
-    /\ UNCHANGED <<pop, best, evals, calls>>
+    /\ UNCHANGED <<pop, best, evals, calls, reg>>
+
+(* A user-written operator driven through the helper combinators `mutation()` / `selection()` / `replacement()`       *)
+(* (default bodies of Component::execute for the operator traits), possibly failing midway.  The operator writes    *)
+(* a.s into the solution it is handed; at individual a.i (0: never) it fails -- "user_mutation": AFTER it has       *)
+(* written, "user_mutation_v": BEFORE writing (it validates first).  What the statement fixes: an individual whose   *)
+(* solution was handed out for writing and written is unevaluated; one whose solution is what it was may keep its    *)
+(* value or lose it (the helper hands out every solution up front).  Whether a failing execution hands the           *)
+(* population back (res.v = 1) or loses it (res.v = 0, the pinned code) is not fixed by the statement.               *)
+UserMutOps == {"user_mutation", "user_mutation_v"}
+Written(a, j) == a.i = 0 \/ j < a.i \/ (j = a.i /\ a.op = "user_mutation")
+UserMutation(a, np) ==
+    /\ act' = a
+    /\ IF a.i = 0
+       THEN /\ np = [j \in Idx |-> Ind(a.s, NoObj)] /\ res' = R("ok", 0)
+       ELSE \/ np = <<>> /\ res' = R("err", 0)
+            \/ /\ Len(np) = Len(pop) /\ res' = R("err", 1)
+               /\ \A j \in Idx : IF Written(a, j) THEN np[j] = Ind(a.s, NoObj)
+                                  ELSE np[j].s = pop[j].s /\ np[j].o \in {NoObj, pop[j].o}
+    /\ pop' = np
+    /\ UNCHANGED <<best, arch, shownK, evals, calls, reg>>
+UserMutCandidates(a) ==
+    IF a.i = 0 THEN {[j \in Idx |-> Ind(a.s, NoObj)]}
+    ELSE {<<>>} \cup {[j \in Idx |-> IF Written(a, j) THEN Ind(a.s, NoObj) ELSE Ind(pop[j].s, IF j \in keep THEN pop[j].o ELSE NoObj)] :
+                      keep \in SUBSET {j \in Idx : ~Written(a, j)}}
+
+(* A user-written selection (picks member a.i twice) through `selection()`, then a user-written replacement (keeps    *)
+(* parents followed by offspring) through `replacement()`; a.s = 0: both succeed, 1: the selection fails (nothing     *)
+(* was pushed), 2: the replacement fails after it has taken both populations (handed back or lost, as above).          *)
+UserSelectReplace(a, np) ==
+    /\ act' = a
+    /\ CASE a.s = 0 -> np = pop \o <<pop[a.i], pop[a.i]>> /\ res' = R("ok", 0)
+         [] a.s = 1 -> np = pop /\ res' = R("err", 1)
+         [] a.s = 2 -> \/ np = <<>> /\ res' = R("err", 0)
+                       \/ np \in {pop, pop \o <<pop[a.i], pop[a.i]>>} /\ res' = R("err", 1)
+    /\ pop' = np
+    /\ UNCHANGED <<best, arch, shownK, evals, calls, reg>>
+UserSelCandidates(a) == {<<>>, pop, pop \o <<pop[a.i], pop[a.i]>>}
 
 Acts ==
   (IF Len(pop) < MaxPop
@@ -150,6 +224,10 @@ Acts ==
   \cup {A("evaluate_with", i, 0) : i \in Idx} \cup {A("set_objective", i, 0) : i \in Idx}
   \cup {A("evaluate", 0, par) : par \in 0..4} \cup {A("evaluate_missing", 0, pl) : pl \in 0..4}   \* evaluate: 0 = sequential, 1..3 = parallel evaluator on k worker threads, 4 = user-written evaluator with counted probes
   \cup {A("evaluate_nested", 0, dp) : dp \in 1..3}
+  \cup {A("register", api, k) : api \in 1..3, k \in RegKinds}
+  \cup (IF Track THEN {A("evaluate_id", id, 0) : id \in {x \in 1..2 : reg[x] # 0}}
+                     \cup {A("evaluate_scoped", id, sr) : id \in 1..2, sr \in ScopeRegs}
+        ELSE {})
   \cup (IF AllEvaluated THEN {A("update_best", 0, 0)} ELSE {})
   \cup {A("init_run", 0, 0)}
   \cup (IF Len(pop) + Len(arch) <= MaxPop + 1 THEN {A("archive_into_population", 0, 0)} ELSE {})
@@ -163,9 +241,14 @@ ArchCandidates ==
     SeqsOver({all[j] : j \in 1..Len(all)}, n)
 
 MInit == /\ pop = <<>> /\ best = NoInd /\ arch = <<>> /\ shownK = <<>> /\ evals = 0 /\ calls = 0
+         /\ reg = <<1, 0>>          \* a sequential evaluator under the default identifier, nothing under A
          /\ act = A("init", 0, 0) /\ res = R("ok", 0)
+UserMutActs == {A(op, i, s) : op \in UserMutOps, i \in 0..Len(pop), s \in Sols}
+UserSelActs == IF Len(pop) + 2 <= MaxPop + 1 THEN {A("user_select_replace", i, s) : i \in Idx, s \in 0..2} ELSE {}
 MNext == \/ \E a \in Acts : Do(a)
          \/ (AllEvaluated /\ \E na \in ArchCandidates : ArchiveUpdate(na))
+         \/ \E a \in UserMutActs : \E np \in UserMutCandidates(a) : UserMutation(a, np)
+         \/ \E a \in UserSelActs : \E np \in UserSelCandidates(a) : UserSelectReplace(a, np)
 MSpec == MInit /\ [][MNext]_mvars
 
 ---------------------------------------------------------------------------
@@ -179,12 +262,19 @@ Fresh == \A x \in Everyone : x.o # NoObj => x.o = F[x.s]
 MutableAccessClears ==
   [][ /\ act'.op \in {"solution_mut", "solution_mut_peek"} => pop'[act'.i].o = NoObj
       /\ act'.op \in {"as_solutions_mut", "round_trip"} => \A j \in 1..Len(pop') : pop'[j].o = NoObj
-      /\ act'.op \in {"solution_mut", "as_solutions_mut"} => pop'[act'.i].s = act'.s ]_mvars
+      /\ act'.op \in {"solution_mut", "as_solutions_mut"} => pop'[act'.i].s = act'.s
+      \* a user-written mutation behind the `mutation()` helper, failing or not: whoever was written is unevaluated
+      /\ (act'.op \in UserMutOps /\ Len(pop') > 0) =>
+            /\ Len(pop') = Len(pop)
+            /\ \A j \in Idx : Written(act', j) => pop'[j] = Ind(act'.s, NoObj) ]_mvars
 \* C05: copying / reading keep solution and objective together and change nothing else
 CopyKeepsPair ==
   [][ /\ act'.op = "clone" => pop' = Append(pop, pop[act'.i])
       /\ act'.op = "clone_from" => pop'[act'.i] = pop[act'.s] /\ Len(pop') = Len(pop)
-      /\ act'.op = "as_solutions" => pop' = pop ]_mvars
+      /\ act'.op = "as_solutions" => pop' = pop
+      \* selecting and moving between populations through the helpers: every member is a (solution, objective) pair
+      \* that was there before
+      /\ act'.op = "user_select_replace" => \A j \in 1..Len(pop') : \E x \in Idx : pop'[j] = pop[x] ]_mvars
 
 \* C06: an evaluation step keeps order and solutions, evaluates everyone with f, counts exactly |pop|
 EvaluateExact ==
@@ -193,11 +283,27 @@ EvaluateExact ==
         /\ \A j \in Idx : pop'[j].s = pop[j].s /\ pop'[j].o = F[pop[j].s]
         /\ evals' - evals = calls' - calls                 \* reported = invoked
         /\ calls' - calls = (IF act'.s = 4 THEN 2 ELSE 1) * Len(pop) ]_mvars
+\* C06: "applies the REGISTERED evaluator": the one registered last under the requested identifier, innermost scope first
+RegisteredApplied ==
+  [][ /\ act'.op = "register" => reg'[SlotOf(act'.i)] = Mult(act'.s) /\ reg'[3 - SlotOf(act'.i)] = reg[3 - SlotOf(act'.i)]
+      /\ act'.op \notin {"register", "evaluate"} => reg' = reg
+      /\ act'.op = "evaluate_id" =>
+            /\ Len(pop') = Len(pop)
+            /\ \A j \in Idx : pop'[j].s = pop[j].s /\ pop'[j].o = F[pop[j].s]
+            /\ evals' - evals = calls' - calls
+            /\ calls' - calls = reg[act'.i] * Len(pop)
+      /\ act'.op = "evaluate_scoped" =>
+            LET own == act'.s \in RegKinds
+                e == IF own THEN Mult(act'.s) ELSE reg[act'.i] IN
+            /\ e = 0 => res'.k = "err" /\ res'.v = 0 /\ pop' = pop /\ calls' = calls     \* fails before anything executes
+            /\ e # 0 =>                                     \* registered (by the scope or around it): the step runs
+                 /\ res'.k = "ok" /\ res'.v = e * Len(pop) /\ calls' - calls = e * Len(pop)
+                 /\ Len(pop') = Len(pop) /\ \A j \in Idx : pop'[j].s = pop[j].s /\ pop'[j].o = F[pop[j].s] ]_mvars
 \* C06: the counter moves only with real objective calls made by evaluation steps
 CountOnlyByEvaluate ==
-  [][ /\ act'.op \notin {"evaluate", "init_run"} => evals' = evals
+  [][ /\ act'.op \notin {"evaluate", "evaluate_id", "init_run"} => evals' = evals
       /\ act'.op = "init_run" => evals' = 0
-      /\ act'.op \notin {"evaluate", "evaluate_with"} => calls' = calls
+      /\ act'.op \notin {"evaluate", "evaluate_id", "evaluate_scoped", "evaluate_with"} => calls' = calls
       /\ act'.op = "evaluate_missing" => res'.k = "err" /\ res'.v = 0 /\ pop' = pop
       /\ act'.op = "evaluate_nested" => res'.k = "ok" /\ res'.v = 2 * Len(pop) /\ pop' = pop ]_mvars
 
